@@ -425,6 +425,18 @@ def _fam_lscr_nested(n):
     lnam = lc.build_lnam([b"test", b"x"])
     return "lscr", lc.build_lscr([dict(name=0, args=[], locals=[1], code=b"\x41\x01" + b"\x09" * n + b"\x52\x00\x01")]), {"lnam": lnam.hex()}
 
+def _fam_lscr_chain(n, unit, start=b"\x4c\x00"):
+    # one recursive expression node kind nested n deep under one statement (`set x = <chain>`): a generator that renders a child twice
+    # costs 2^n (seeded change C10-m2 of round 14: `the P of obj` generated its object twice in JavaScript; the text was unchanged)
+    import lscr_common as lc
+    lnam = lc.build_lnam([b"test", b"x", b"name"])
+    return "lscr", lc.build_lscr([dict(name=0, args=[], locals=[1], code=start + unit * n + b"\x52\x00\x01")]), {"lnam": lnam.hex()}
+def _fam_lscr_chain_prop(n): return _fam_lscr_chain(n, b"\x61\x02")
+def _fam_lscr_chain_not(n): return _fam_lscr_chain(n, b"\x14")
+def _fam_lscr_chain_add(n): return _fam_lscr_chain(n, b"\x41\x01\x05")
+def _fam_lscr_chain_list(n): return _fam_lscr_chain(n, b"\x43\x01\x1e")
+def _fam_lscr_chain_call(n): return _fam_lscr_chain(n, b"\x43\x01\x57\x02")
+
 def _fam_vwlb_zigzag(n):
     # n markers whose label offsets alternate between 0 and the pool size: every second label is the whole pool
     P = 4 * n
@@ -473,7 +485,8 @@ FAMILIES_SCALING = dict(vwsc_frames=(_fam_vwsc_frames, 300), vwsc_overrun=(_fam_
                         lscr_shared_locals=(_fam_lscr_shared_locals, 10), lscr_shared_code=(_fam_lscr_shared_code, 10),
                         lscr_shared_args=(_fam_lscr_shared_args, 10), lscr_shared_globs=(_fam_lscr_shared_globs, 10),
                         lscr_shared_locals_cancel_args=(_fam_lscr_shared_locals_cancel_args, 10), lscr_shared_locals_cancel_globs=(_fam_lscr_shared_locals_cancel_globs, 10),
-                        lscr_shared_consts=(_fam_lscr_shared_consts, 40), lscr_neg_length_consts=(_fam_lscr_neg_length_consts, 40), lscr_neg_length_floats=(_fam_lscr_neg_length_floats, 40), vwlb_zigzag=(_fam_vwlb_zigzag, 1500), lscr_nested=(_fam_lscr_nested, 100), riff=(_fam_riff, 300), mmap=(_fam_mmap, 300), cas=(_fam_cas, 2000), key=(_fam_key, 500), locate=(_fam_locate, 500),
+                        lscr_shared_consts=(_fam_lscr_shared_consts, 40), lscr_neg_length_consts=(_fam_lscr_neg_length_consts, 40), lscr_neg_length_floats=(_fam_lscr_neg_length_floats, 40), vwlb_zigzag=(_fam_vwlb_zigzag, 1500), lscr_nested=(_fam_lscr_nested, 100), lscr_chain_prop=(_fam_lscr_chain_prop, 11), lscr_chain_not=(_fam_lscr_chain_not, 11), lscr_chain_add=(_fam_lscr_chain_add, 11),
+                        lscr_chain_list=(_fam_lscr_chain_list, 11), lscr_chain_call=(_fam_lscr_chain_call, 11), riff=(_fam_riff, 300), mmap=(_fam_mmap, 300), cas=(_fam_cas, 2000), key=(_fam_key, 500), locate=(_fam_locate, 500),
                         lscr_straight=(_fam_lscr_straight, 250), lscr_loops=(_fam_lscr_loops, 120), lscr_ifs=(_fam_lscr_ifs, 150))
 SCALING_MAX_RATIO = 2.6      # doubling the input may at most (a bit more than) double the executed lines
 
